@@ -848,7 +848,7 @@ def distribution(cases, impl, errors):
         reprs[" ".join(repr_attrs(d["reprs"])) or "(none)"] += 1
         if o[:1] != [1]:
             e = errors.get(name, "?")
-            mm = re.match(r"error(\[E\d+\])?: ([^:`]{0,48})", e)
+            mm = re.match(r"error(\[E\d+\])?: ([^:]{0,48})", e)
             errs[(mm.group(1) or "") + " " + mm.group(2).strip() if mm else e[:40]] += 1
     return {"macro": dict(macro), "form": dict(form), "verdict": dict(verdict),
             "representations_top": dict(reprs.most_common(25)), "rejection_reasons": dict(errs.most_common(25))}
